@@ -30,6 +30,7 @@ type Variant struct {
 	} `json:"edits,omitempty"`
 	Benign bool   `json:"benign,omitempty"` // behaviour-preserving edit: the check must stay silent
 	Note   string `json:"note,omitempty"`
+	Patch  string `json:"patch,omitempty"` // unified diff applied with `git apply` instead of search/replace
 }
 
 func loadVariants(verif string) []Variant {
@@ -46,6 +47,38 @@ func loadVariants(verif string) []Variant {
 			infra("variants %s: %v", f, err)
 		}
 		out = append(out, vs...)
+	}
+	// independently written changes kept under seeded/ (must be reported, if
+	// they were when recorded) and benign/ (must stay silent)
+	metas, _ := filepath.Glob(filepath.Join(verif, "seeded", "*", "meta.json"))
+	sort.Strings(metas)
+	for _, m := range metas {
+		var meta struct {
+			ID         string   `json:"id"`
+			Property   string   `json:"property"`
+			Detected   bool     `json:"detected"`
+			DetectedBy []string `json:"detected_by"`
+		}
+		b, err := os.ReadFile(m)
+		if err != nil || json.Unmarshal(b, &meta) != nil || !meta.Detected || len(meta.DetectedBy) == 0 {
+			continue
+		}
+		out = append(out, Variant{ID: "seeded-" + meta.ID, Property: []string{meta.Property}, Rule: "", Expect: "",
+			Patch: filepath.Join(filepath.Dir(m), "patch.diff"), Note: "independently seeded change"})
+	}
+	metas, _ = filepath.Glob(filepath.Join(verif, "benign", "*", "meta.json"))
+	sort.Strings(metas)
+	for _, m := range metas {
+		var meta struct {
+			ID         string   `json:"id"`
+			Properties []string `json:"properties"`
+		}
+		b, err := os.ReadFile(m)
+		if err != nil || json.Unmarshal(b, &meta) != nil {
+			continue
+		}
+		out = append(out, Variant{ID: "benign-" + meta.ID, Property: meta.Properties, Rule: "-", Expect: "-", Benign: true,
+			Patch: filepath.Join(filepath.Dir(m), "patch.diff"), Note: "independently written behaviour-preserving refactoring"})
 	}
 	return out
 }
@@ -100,6 +133,14 @@ func runVariant(self, root, prop string, v Variant) variantResult {
 			Find    string `json:"find"`
 			Replace string `json:"replace"`
 		}{v.File, v.Find, v.Replace})
+	}
+	if v.Patch != "" {
+		cmd := exec.Command("git", "apply", v.Patch)
+		cmd.Dir = dir
+		if out, err := cmd.CombinedOutput(); err != nil {
+			res.Outcome, res.Detail = "skipped", "patch no longer applies to the current tree: "+firstLine(string(out))
+			return res
+		}
 	}
 	for _, e := range edits {
 		ok, err := applyEdit(dir, e.File, e.Find, e.Replace)
